@@ -9,7 +9,6 @@ import (
 	"os"
 	"path/filepath"
 	"regexp"
-	"sort"
 	"strings"
 	"testing"
 	"testing/synctest"
@@ -18,7 +17,6 @@ import (
 	"github.com/hashicorp/raft"
 	"github.com/robustirc/robustirc/internal/config"
 	"github.com/robustirc/robustirc/internal/ircserver"
-	"github.com/robustirc/robustirc/internal/outputstream"
 	"github.com/robustirc/robustirc/internal/robust"
 	"github.com/robustirc/robustirc/internal/verifsim/core"
 	"gopkg.in/sorcix/irc.v2"
@@ -146,6 +144,7 @@ type e1Run struct {
 	stopped   bool
 	offset    uint64
 	toleratedOwn int
+	prevLineSession, prevOtherSession uint64
 }
 
 func (r *e1Run) violate(prop, class, sig, detail string) {
@@ -613,6 +612,26 @@ func (r *e1Run) execStep(st e1Step) {
 			return
 		}
 		data := st.Data
+		if strings.Contains(data, "{nick") {
+			// current nicknames: {nicka} = the acting session, {nickb} = the session of the previous line step
+			pv := ircserver.VerifPriv(r.nodes[0].irc)
+			nickOf := func(id uint64) string {
+				if ps := pv.Sess[[2]uint64{id, 0}]; ps != nil && ps.Nick != "" {
+					return ps.Nick
+				}
+				return "nobody"
+			}
+			other := r.prevLineSession
+			if other == sid || other == 0 {
+				other = r.prevOtherSession
+			}
+			data = strings.ReplaceAll(data, "{nicka}", nickOf(sid))
+			data = strings.ReplaceAll(data, "{nickb}", nickOf(other))
+		}
+		if sid != r.prevLineSession {
+			r.prevOtherSession = r.prevLineSession
+		}
+		r.prevLineSession = sid
 		if strings.Contains(data, "{captcha}") {
 			data = strings.Replace(data, "{captcha}", r.mint(st, sid, data), 1)
 		}
@@ -699,6 +718,8 @@ func (r *e1Run) execStep(st e1Step) {
 		r.restart(st)
 	case "install":
 		r.install(st)
+	case "selfrestore":
+		r.selfRestore(st)
 	case "cycle":
 		r.cycle(st)
 	}
@@ -902,6 +923,48 @@ func (r *e1Run) restart(st e1Step) {
 	r.checkRetained(n, "after restart")
 	if n.applied == r.nodes[0].applied {
 		r.compareStates("after restart+replay", "C02")
+	}
+}
+
+// selfRestore: FSM.Restore of the node's own newest snapshot on the same FSM instance (no restart; what
+// TestCompaction does and what raft's user-triggered Restore does), followed by replay of the log tail.
+func (r *e1Run) selfRestore(st e1Step) {
+	n := r.node(st.N)
+	if n == nil || n.idx == 0 {
+		return
+	}
+	b, idx, ok := n.newestSnapshot()
+	if !ok {
+		return
+	}
+	had := n.applied
+	err, p, stack := n.restoreFrom(b, idx)
+	r.tr.Log("selfrestore n%d @%d", n.idx, idx)
+	if p != nil {
+		r.violate("C02", "restore-panic", "restore-panic:"+panicSite(stack), fmt.Sprintf("node %d: Restore of its own snapshot (index %d) panicked: %v\n%s", n.idx, idx, p, firstLinesOf(stack, 20)))
+		r.stopped = true
+		return
+	}
+	if err != nil {
+		r.violate("C02", "restore-error", "restore-error", fmt.Sprintf("node %d: Restore of its own snapshot (index %d) failed: %v", n.idx, idx, err))
+		return
+	}
+	n.restored = true
+	r.res.Add("restores", 1)
+	r.res.Add("self_restores", 1)
+	first, _ := n.logs.FirstIndex()
+	if first > n.applied+1 && n.applied < had {
+		return // the tail is no longer in the raft log (TrailingLogs); the node waits for the leader
+	}
+	for n.applied < had && !r.stopped {
+		r.applyOn(n, 1)
+	}
+	if r.stopped {
+		return
+	}
+	r.checkRetained(n, "after restore on the same FSM")
+	if n.applied == r.nodes[0].applied {
+		r.compareStates("after restore on the same FSM + replay", "C02")
 	}
 }
 
